@@ -22,13 +22,16 @@ def demoSwitch : Program :=
     dflt := fun _ _ => .none,
     inputKw := [] }
 
-theorem demoSwitch_swP : SwP demoSwitch := by
-  refine ⟨fun _ => ?_, fun _ => ?_, ?_, fun _ _ => ⟨rfl, rfl⟩, by decide, by decide, by decide, by decide⟩
-  · simp only [demoSwitch, Graph.isOneofHead]; split <;> rfl
-  · simp only [demoSwitch]; split <;> rfl
-  · intro n kw i k v h
-    simp only [demoSwitch] at h
-    split at h <;> (cases h; exact ⟨rfl, rfl⟩)
+theorem demoSwitch_noHead : ∀ n, demoSwitch.g.isOneofHead n = false := by
+  intro n; simp only [demoSwitch, Graph.isOneofHead]; split <;> rfl
+
+theorem demoSwitch_oneP : OneP demoSwitch := by
+  refine oneP_of_check (by decide) (fun h hh => by rw [demoSwitch_noHead h] at hh; cases hh) ?_ (fun _ _ => ⟨rfl, rfl⟩)
+  intro n kw i k v h
+  simp only [demoSwitch] at h
+  split at h <;> (cases h; exact ⟨rfl, rfl⟩)
+
+theorem demoSwitch_swP : SwP demoSwitch := ⟨demoSwitch_oneP, demoSwitch_noHead⟩
 
 /-- the dataflow values: the decision is `"l0"`, so the switch has the value of case `2` -/
 def demoSwVal : Node → Option Val := fun n =>
@@ -80,7 +83,7 @@ theorem demoSwitch_demanded : ∀ n, Demanded demoSwitch demoSwVal n → n ∈ [
   intro n h
   induction h with
   | out => decide
-  | @pred n p _ hns hp ih =>
+  | @pred n p _ hns _ hp ih =>
     have key : ∀ n ∈ [5, 4, 0, 1, 2], demoSwitch.g.isSwitch n = false → ∀ p ∈ demoSwitch.g.preds n, p ∈ [5, 4, 0, 1, 2] := by
       decide
     exact key n ih hns p hp
@@ -100,5 +103,7 @@ theorem demoSwitch_demanded : ∀ n, Demanded demoSwitch demoSwVal n → n ∈ [
       cases hc
       decide
     exact key S ih hS c hsel
+  | @headDep h e _ hh _ _ _ _ => rw [demoSwitch_noHead h] at hh; cases hh
+  | @cand h c pre post _ hh _ _ _ => rw [demoSwitch_noHead h] at hh; cases hh
 
 end MLPE.Eng
